@@ -17,7 +17,7 @@ Import ListNotations.
 (* no reported conflict => no execution dereferences nil, whatever the opaque conditions answer *)
 Theorem C01_clean_means_panic_free : forall prog afuel ctr pk r st,
   analyze_program afuel ctr pk prog = Some r -> r_gsafe r = true -> r_clocal r = true ->
-  wf_program prog = true -> ctr_arity ctr 0 (p_funcs prog) = true ->
+  wf_program prog = true -> ctr_arity ctr 0 (p_funcs prog) = true -> impls_plain prog ctr = true ->
   (forall g fd, ctr g = true -> nth_error (p_funcs prog) g = Some fd -> contract_true prog fd) ->
   pkg_run [] [] (all_triggers r) st -> conflicts st = [] ->
   forall fuel oracle, panic_of (run_program prog fuel oracle) = None.
@@ -27,7 +27,7 @@ Print Assumptions C01_clean_means_panic_free.
 (* if some execution dereferences nil, at least one diagnostic is reported *)
 Theorem C01_panic_is_reported : forall prog afuel ctr pk r st fuel oracle d,
   analyze_program afuel ctr pk prog = Some r -> r_gsafe r = true -> r_clocal r = true ->
-  wf_program prog = true -> ctr_arity ctr 0 (p_funcs prog) = true ->
+  wf_program prog = true -> ctr_arity ctr 0 (p_funcs prog) = true -> impls_plain prog ctr = true ->
   (forall g fd, ctr g = true -> nth_error (p_funcs prog) g = Some fd -> contract_true prog fd) ->
   pkg_run [] [] (all_triggers r) st ->
   panic_of (run_program prog fuel oracle) = Some d -> conflicts st <> [].
@@ -37,7 +37,7 @@ Print Assumptions C01_panic_is_reported.
 (* the same at the level of the constraint system, independent of the engine's algorithm *)
 Theorem C01_no_flow_means_panic_free : forall prog afuel ctr pk r,
   analyze_program afuel ctr pk prog = Some r -> r_gsafe r = true -> r_clocal r = true ->
-  wf_program prog = true -> ctr_arity ctr 0 (p_funcs prog) = true ->
+  wf_program prog = true -> ctr_arity ctr 0 (p_funcs prog) = true -> impls_plain prog ctr = true ->
   (forall g fd, ctr g = true -> nth_error (p_funcs prog) g = Some fd -> contract_true prog fd) ->
   ~ has_flow (csys_of [] [] (all_triggers r)) ->
   forall fuel oracle, panic_of (run_program prog fuel oracle) = None.
